@@ -107,6 +107,12 @@ class Lowerer:
             if e[2] in FLDS:
                 return "(.fld %s %s)" % (self.obj_of(e[1], env), FLDS[e[2]])
             raise Unparsed("field %s" % e[2])
+        if k == "call" and e[1][0] == "path" and re.match(r"^(core::|std::)?(mem::)?needs_drop::<\w+>$", e[1][1]) and not e[2]:
+            tp = re.search(r"<(\w+)>$", e[1][1]).group(1)
+            o = getattr(self, "tparam_obj", {}).get(tp)
+            if o is None:
+                raise Unparsed("needs_drop of a type that is not an operand's element type: %s" % tp)
+            return "(.needsDrop %s)" % o
         if k == "un":
             if e[1] in ("&", "&mut", "*"):
                 return self.X(e[2], env)
@@ -355,15 +361,25 @@ class Lowerer:
             return cont(env)
         # `let mut source = ArrayConsumer::new(self);` : the array moves into a consumer (drops `array[position..]`)
         if init[0] == "call" and init[1][0] == "path" and init[1][1] == "ArrayConsumer::new" and len(init[2]) == 1 \
-                and init[2][0][0] == "path" and env.get(init[2][0][1], ("",))[0] == "self":
+                and init[2][0][0] == "path" and env.get(init[2][0][1], ("",))[0] in ("self", "other"):
             hdr, body = self.find_callee("new", "ArrayConsumer")
             ok = (not body[1] and body[2] is not None and body[2][0] == "struct" and
                   sorted(body[2][2]) == sorted([("array", ("call", ("path", "ManuallyDrop::new"), [("path", "array")])), ("position", ("num", 0))]))
             if not ok:
                 raise Unparsed("ArrayConsumer::new is not `ArrayConsumer { array: ManuallyDrop::new(array), position: 0 }`")
             env = dict(env)
-            env[name] = ("objref", ".self", "ArrayConsumer")
-            return "(.set .self .position (.num 0)\n  %s)" % cont(env)
+            o = ".self" if env[init[2][0][1]][0] == "self" else ".other"
+            env[name] = ("objref", o, "ArrayConsumer")
+            return "(.set %s .position (.num 0)\n  %s)" % (o, cont(env))
+        # `let left = ManuallyDrop::new(lhs);` : the array is never dropped by this function
+        if init[0] == "call" and init[1][0] == "path" and init[1][1].split("::")[-1] == "new" and "ManuallyDrop" in init[1][1] \
+                and len(init[2]) == 1 and init[2][0][0] == "path" and env.get(init[2][0][1], ("",))[0] in ("self", "other"):
+            env = dict(env)
+            o = ".self" if env[init[2][0][1]][0] == "self" else ".other"
+            env[name] = ("manual", o)
+            if o == ".self":
+                return "(.forget\n  %s)" % cont(env)
+            return "(.forgetO %s\n  %s)" % (o, cont(env))
         # `let layout = Layout::new::<…>();`
         if init[0] == "call" and init[1][0] == "path" and init[1][1].startswith("Layout::new") and not init[2]:
             env = dict(env)
@@ -452,7 +468,12 @@ class Lowerer:
         if e[0] == "method" and e[2] in ("is_some", "is_none") and not e[3] and e[1][0] == "method" and e[1][2] == "next" \
                 and e[1][1][0] == "path" and env.get(e[1][1][1], ("",))[0] in ("ext", "mapiter"):
             b = env[e[1][1][1]]
-            head = ".pollS" if b[0] == "ext" else ".pollMapS %d %s\n  %s" % (b[4], b[1], self.map_closure(b))
+            if b[0] == "ext":
+                head = ".pollS"
+            elif len(b) > 5:
+                head = ".pollZipMapS %d %s %s\n  %s" % (b[4], b[1], b[5], self.map_closure(b))
+            else:
+                head = ".pollMapS %d %s\n  %s" % (b[4], b[1], self.map_closure(b))
             nv = self.nvars
             self.nvars += 1
             c = "(.var %d)" % nv
@@ -619,6 +640,10 @@ class Lowerer:
         if kind == "call" and e[1][0] == "path" and e[1][1] in env and env[e[1][1]][0] == "closureF":
             if getattr(self, "value_closure", False):
                 # `f(value)` as the closure's result: the caller's closure consumes the element and returns a value
+                if len(e[2]) == 2:
+                    nv = self.nvars
+                    self.nvars += 1
+                    return "(.callM2 %s %s\n  %s)" % (self.X(e[2][0], env), self.X(e[2][1], env), k("(.var %d)" % nv, env))
                 if len(e[2]) != 1:
                     raise Unparsed("map closure calls f with %d arguments" % len(e[2]))
                 nv = self.nvars
@@ -658,15 +683,32 @@ class Lowerer:
             return self.effect(e, env, lambda env2: k(".unit", env2))
         return k(self.X(e, env), env)
 
+    def slots_obj(self, e, env):
+        """object whose array a `slice::Iter` expression walks: a `slotsiter` name, or `x.iter()` on a consumer /
+        `ManuallyDrop` wrapper of an operand"""
+        if e[0] == "path" and env.get(e[1], ("",))[0] == "slotsiter":
+            return env[e[1]][1]
+        if e[0] == "method" and e[2] in ("iter", "iter_mut") and not e[3] and e[1][0] == "path" \
+                and env.get(e[1][1], ("",))[0] in ("manual",):
+            return env[e[1][1]][1]
+        raise Unparsed("zip operand is not a slice iterator over an operand array")
+
     def map_closure(self, b):
         """lower the closure of `array_iter.map(closure)` in the environment of its creation; its value is its result"""
-        _, obj, clo, cenv, l0 = b
+        _, obj, clo, cenv, l0 = b[:5]
         params = clo[1]
-        if len(params) != 1 or params[0][0] != "pbind":
-            raise Unparsed("map closure parameters")
         saved = self.nvars
         self.nvars = l0
-        benv = self.fresh(cenv, params[0][1], "slot")
+        if len(b) > 5:
+            # `a_iter.zip(b_iter).map(|(l, r)| …)`
+            if len(params) != 1 or params[0][0] != "ptuple" or len(params[0][1]) != 2 or any(p[0] != "pbind" for p in params[0][1]):
+                raise Unparsed("zip-map closure parameters")
+            benv = self.fresh(cenv, params[0][1][0][1], "slot")
+            benv = self.fresh(benv, params[0][1][1][1], "slot")
+        else:
+            if len(params) != 1 or params[0][0] != "pbind":
+                raise Unparsed("map closure parameters")
+            benv = self.fresh(cenv, params[0][1], "slot")
         body = clo[2] if clo[2][0] == "block" else ("block", [], clo[2])
         self.value_closure = True
         try:
@@ -687,6 +729,11 @@ class Lowerer:
                 cenv[p[0]] = ("ignored",)
             elif a[0] == "path" and env.get(a[1], ("",))[0] == "mapiter":
                 cenv[p[0]] = env[a[1]]
+            elif a[0] == "method" and a[2] == "map" and len(a[3]) == 1 and a[3][0][0] == "closure" and a[1][0] == "method" \
+                    and a[1][2] == "zip" and len(a[1][3]) == 1:
+                # `a_iter.zip(b_iter).map(|(l, r)| …)` over the arrays of two objects
+                oa, ob = self.slots_obj(a[1][1], env), self.slots_obj(a[1][3][0], env)
+                cenv[p[0]] = ("mapiter", oa, a[3][0], dict(env), self.nvars, ob)
             elif a[0] == "method" and a[2] == "map" and len(a[3]) == 1 and a[3][0][0] == "closure" and a[1][0] == "path" \
                     and env.get(a[1][1], ("",))[0] == "slotsiter":
                 # `array_iter.map(|src| …)`: a `Map` over the `slice::Iter` of an object's array; the closure keeps the
@@ -818,6 +865,8 @@ class Lowerer:
             body = clo[2] if clo[2][0] == "block" else ("block", [], clo[2])
             btext = self.block(body, benv, lambda x, env2: "(.done .unit)")
             self.nvars = nv
+            if len(bb) > 5:
+                return "(.fillZipMapS %d %s %s\n  %s\n  %s\n  %s)" % (bb[4], bb[1], bb[5], ctext, btext, cont(env))
             return "(.fillMapS %d %s\n  %s\n  %s\n  %s)" % (bb[4], bb[1], ctext, btext, cont(env))
         if ka == "slotsiter" and kb == "ext":
             dest_first, o = True, ba[1]
@@ -914,6 +963,11 @@ def lower_fn(table, key):
     hdr, body = table[key]
     params = fn_params(hdr)
     L = Lowerer(table, key[0])
+    # element type parameter of the receiver: `… for GenericArray<T, N>`
+    L.tparam_obj = {}
+    mm = re.search(r"for(?:Box<)?GenericArray<(\w+),", key[0])
+    if mm:
+        L.tparam_obj[mm.group(1)] = ".self"
     env = {}
     recv = "ref"
     nargs = 0
@@ -926,7 +980,13 @@ def lower_fn(table, key):
             nargs += 1
         else:
             # caller data: a closure `f`, an accumulator `init`, a formatter …
-            env[p[0]] = ("closureF",) if p[2] in ("F",) else (("ext",) if "Iterator" in p[2] else ("ignored",))
+            mm = re.match(r"^GenericArray<(\w+),", p[2])
+            if mm:
+                # a second array operand, by value
+                env[p[0]] = ("other",)
+                L.tparam_obj[mm.group(1)] = ".other"
+            else:
+                env[p[0]] = ("closureF",) if p[2] in ("F",) else (("ext",) if "Iterator" in p[2] else ("ignored",))
     text = L.block(body, env, lambda x, env2: "(.done %s)" % x)
     return recv, nargs, text, L.notes
 
@@ -960,6 +1020,7 @@ TARGETS = [
     ("lib.rs", ("GenericSequence<T>forGenericArray<T,N>",), "generate", "generate"),
     ("lib.rs", ("FunctionalSequence<T>forGenericArray<T,N>",), "fold", "gaFold"),
     ("lib.rs", ("FunctionalSequence<T>forGenericArray<T,N>",), "map", "gaMap"),
+    ("lib.rs", ("GenericSequence<T>forGenericArray<T,N>",), "inverted_zip", "gaIzip"),
     ("impl_alloc.rs", ("GenericSequence<T>forBox<GenericArray<T,N>>",), "generate", "boxedGenerate"),
     ("impl_alloc.rs", ("DropforDeallocOnDrop",), "drop", "deallocGuardDrop"),
 ]
